@@ -16,7 +16,7 @@ META = {
     "rule": ("case = {program AST?, planted attribute-rich ops?, mutation history?, metadata?}; distinct by JSON; "
              "non-trivial when the HUGR has >= 6 nodes and (an Ext/Dom/order/CF/static edge, a poly call or insert_*) "
              "or the history applied >= 1 delete"),
-    "required": ["monitor:json-fixed-point", "monitor:observe-eq", "monitor:second-roundtrip",
+    "required": ["monitor:repo-test-documents", "monitor:json-fixed-point", "monitor:observe-eq", "monitor:second-roundtrip",
                  "cases:program", "cases:program+history", "cases:history", "cases:attr-rich",
                  "feature:metadata", "feature:holes", "feature:order-link", "feature:index-reuse",
                  "feature:planted-poly-funcdefn", "feature:planted-block-delta", "feature:function-const"],
@@ -39,7 +39,10 @@ def build(case):
     from vf.props.c05 import build_op
 
     info = {}
-    if case.get("prog") is not None:
+    if case.get("doc") is not None:
+        # a document captured from the repository's own tests (vf/repo_corpus.py)
+        h = Hugr.load_json(json.dumps(case["doc"]))
+    elif case.get("prog") is not None:
         h = Interp().run(case["prog"])
     else:
         h = Hugr()
@@ -178,6 +181,18 @@ def run(ctx):
             if o["k"] == "Const" and "'func'" in repr(o.get("val")):
                 ctx.feat("feature:function-const")
 
+    if ctx.shard == 1 % ctx.nshards:
+        # the HUGRs of the repository's own tests (hand-written, realistic), optionally followed by a history
+        from vf.repo_corpus import documents
+
+        for k, c in enumerate(documents()):
+            for variant in range(2):
+                case = dict(c)
+                if variant:
+                    case["hist"] = gen_history_on(ctx.rng("repo-doc", k), 12, max_steps=12)
+                ctx.count("monitor:repo-test-documents")
+                ctx.guard("repo-doc", case, check_case, ctx, case, "repo-doc")
+                ctx.case("repo-doc", case, len(c["doc"]["nodes"]) >= 6)
     n = ctx.n(1500, 50000)
     for i in ctx.mine(n):
         r = ctx.rng("case", i)
